@@ -850,6 +850,9 @@ def searchsorted(a, v, side="left", sorter=None):
 
 def _linspace(bins_range):
     bins, (start, stop) = bins_range
+    if start == stop:
+        # like numpy, widen a degenerate range
+        start, stop = start - 0.5, stop + 0.5
     return np.linspace(start, stop, num=bins + 1)
 
 
@@ -1001,7 +1004,7 @@ def histogram(a, bins=None, range=None, normed=False, weights=None, density=None
         assert range is not None
         assert bins is not None
         if len(deps) == 0:
-            bins = np.linspace(range[0], range[1], num=bins + 1)
+            bins = _linspace((bins, range))
         else:
             linspace_name = "linspace-" + tokenize(bins_range)
 
